@@ -32,3 +32,5 @@ def run(repo, chk, tier):
     sampling_guard(repo, chk, 'C01.8')
     from .kernel_rules import compile_options
     compile_options(repo, chk, 'C01.9')
+    from .kernel_rules import narrow_kernel_storage
+    narrow_kernel_storage(repo, chk, 'C01.10')
